@@ -468,7 +468,10 @@ def r6_ranges(ctx):
             call = astx.calls_in(lp, "_run_step", own_only=False)[0]
             b = astx.bind_args(call, ["profile", "prev_state", "store_states"])
             tgt = astx.stmt_of(call, astx.parents(q.node))
-            init = [dv for _, dv in astx.defs_of(q.node, astx.u(b["profile"])) if dv is not None and astx.u(dv) == "self._profile"]
+            # the value the replay starts from: every binding that can reach the loop from outside it is self._profile
+            pmq = astx.parents(q.node)
+            outer = [dv for st_, dv in astx.reaching_defs(q.node, astx.u(b["profile"]), lp) if astx.enclosing(st_, pmq, ast.For) is not lp and st_ is not tgt]
+            init = bool(outer) and all(dv is not None and astx.u(dv) == "self._profile" for dv in outer)
             good = (astx.u(lp.iter) == "range(round_number)" and astx.u(b.get("prev_state")) == f"self.election_states[{idx}]"
                     and "store_states" not in b and isinstance(tgt, ast.Assign) and astx.u(tgt.targets[0]) == astx.u(b["profile"]) and bool(init))
             # the replay consults nothing the run left behind except the recorded states themselves: an object cached
